@@ -6,7 +6,12 @@
                                q long long, h short, H unsigned short, a signed char, A unsigned char,
                                b bool, c char (decimal value); v string_view, s C string (hex bytes; for s the
                                array is these bytes followed by a NUL); p pointer (decimal address)
+     defer ret|var             (harness only) the fmt object is built from rvalue arguments, returned from a noinline
+                               helper / kept in a variable, and rendered after the stack was overwritten; the model owns
+                               its arguments, so its output is the same as for an immediate rendering
      -> end ok | end assert <expr>,  out <hex>
+   traits group:
+     traits                    what a fmt object stores: rvalue arguments by value, lvalue arguments by reference
    logger group:
      log <Limit>               stack_buffer_logger<RecSink, Limit>
      put <kind> <value>        item << value
@@ -57,6 +62,7 @@ let run_group lines =
   let fmt = ref None and args = ref [] and limit = ref 0 and ops = ref [] in
   List.iter (fun l ->
     match words l with
+    | ["traits"] -> print_string "stores rvalue int=value view=value cstr=value lvalue int=ref view=ref\n"
     | ["fmt"; h] -> fmt := Some (bytes_of_hex h)
     | ["arg"; k; v] -> args := arg_of k v :: !args
     | ["log"; n] -> limit := int_of_string n
